@@ -391,7 +391,7 @@ class CTarget:
     L = "c"
     kinds = True
 
-    def __init__(self, scratch, types, options=None, sanitize=False, tag="c", cc=None, extra_flags=(), uid=None, spy=False):
+    def __init__(self, scratch, types, options=None, sanitize=False, tag="c", cc=None, extra_flags=(), uid=None, spy=False, before_generate=None):
         import copy
         import pathlib
 
@@ -405,6 +405,8 @@ class CTarget:
         self.root = pathlib.Path(scratch) / ("%s%s" % (tag, uid))
         nsdir = self.ts.write(self.root / "dsdl")
         self.out = self.root / "out"
+        if before_generate is not None:
+            before_generate(self, nsdir, self.out)  # histories: an earlier revision generated into the same output directory first
         generate("c", nsdir, self.out, language_options=self.options)
         src = self.root / "driver.c"
         src.write_text(CGen(self.ts, spy=spy).source())
